@@ -2,7 +2,7 @@
 from harness.props.ptrcommon import *
 PROP = "C10"
 COQ_FILES = ["Machine.v", "Ptr.v", "Ptr_proofs.v", "Bulk.v", "Bulk_proofs.v"]
-DRIVERS = drivers("BULK", ["memset", "memcpy", "memcmp", "vrange", "usp", "deny"])
+DRIVERS = drivers("BULK", ["memset", "memcpy", "memcmp", "vrange", "usp", "deny", "grant"])
 M64 = 1 << 64
 
 
@@ -74,6 +74,16 @@ def gen_cases(tier, rng):
                     if n < M64 and p + n <= base + size and not observable(p, n, base):
                         continue
                     cases.append("deny%s %d %s %d" % (cfg, p, elk, cnt))
+        # copy_memory_or_grant_access (copy path): application source, injected allocator results (start, interior,
+        # last bytes, just short of the end, null), counts around what fits
+        for ret in (0, 16, 4096, win - 64, size - 4096, size - 64, size - 8, size - 1):
+            for num in (0, 1, 7, 8, 9, 63, 64, 65, 4096, (1 << 32) - 1, 1 << 32):
+                p = A + ret
+                if num and ret and p + num <= A + size and not observable(p, num, A):
+                    continue
+                if num > APP_SIZE - 64 and num < (1 << 32) and ret and (ret + num <= size):
+                    continue     # would read past the application buffer: not a valid request
+                cases.append("grant%s %d %d %d" % (cfg, APP_BASE + 64, num, ret))
         for elk in ("char", "int"):
             for cnt in (0, 1, 5):
                 cases.append("vrange%s 0 %s %d" % (cfg, elk, cnt))
